@@ -1,6 +1,7 @@
 package main
 
 import (
+	"regexp"
 	"fmt"
 	"os"
 	"go/ast"
@@ -315,6 +316,9 @@ func checkC13(w *World, r *Report) {
 		r.Check(okFd, "R13.9", "makeDecimal64: precision of the built type", pos, "base.Fd()", "the fraction digits of the built type are not taken from the base on every path: a derived type that restates fraction-digits gets a different precision than its base while inheriting the base's ranges, and accepts values its base rejects")
 	})
 
+	r.Rule("R13.10", "numbers written in YANG text are decimal: every strconv.ParseInt/ParseUint in parse, schema and compile gets base 10, either as a constant or through a parameter that every caller (also through the RangeBoundarySlicer interface) fills with the constant 10", 10)
+	r.guard("R13.10", func() { c13Base10(w, r) })
+
 	r.Rule("R13.5", "a default that the final type rejects is refused: validateDefault is called unconditionally on every path that returns a type from makeBuiltinType and refineType, and it validates the default with the type's own Validate", 3)
 	r.guard("R13.5", func() {
 		vd := w.Method("compile", "Compiler", "validateDefault")
@@ -350,6 +354,111 @@ func checkC13(w *World, r *Report) {
 		})
 		r.Check(ok, "R13.5", "validateDefault uses the type's Validate", vfd.Pos(), "t.Validate(default) ≠ nil ⇒ error", "the default is not checked with the type's own validator")
 	})
+}
+
+var c13ParseBaseRe = regexp.MustCompile(`\.(Start|End),\d+,64\)`)
+
+// c13Base10 (R13.10): the base argument of every integer parse of YANG text.
+func c13Base10(w *World, r *Report) {
+	isTen := func(p *packagesPackage, e ast.Expr) bool {
+		tv, ok := p.TypesInfo.Types[e]
+		if !ok || tv.Value == nil {
+			return false
+		}
+		v, ok := intConst(tv.Value)
+		return ok && v == 10
+	}
+	type fwd struct {
+		fn  *types.Func
+		idx int
+		pos token.Pos
+	}
+	var fwds []fwd
+	pkgs := []string{"parse", "schema", "compile"}
+	for _, key := range pkgs {
+		p := w.Pkg(key)
+		for _, fd := range funcDecls(p) {
+			if isTestFile(w, fd.Pos()) || fd.Body == nil {
+				continue
+			}
+			for _, ce := range callsIn(p, fd.Body) {
+				c := calleeOf(p, ce)
+				if c == nil || c.Pkg() == nil || c.Pkg().Path() != "strconv" || (c.Name() != "ParseInt" && c.Name() != "ParseUint") || len(ce.Args) != 3 {
+					continue
+				}
+				inst := key + "." + funcDeclName(fd) + ": " + c.Name() + "(" + types.ExprString(ce.Args[0]) + ")"
+				if isTen(p, ce.Args[1]) {
+					r.Check(true, "R13.10", inst, ce.Pos(), "base 10", "")
+					continue
+				}
+				// a parameter of the enclosing function?
+				idx := -1
+				if o := objOfIdent(p, ce.Args[1]); o != nil {
+					for i := 0; ; i++ {
+						po := paramObj(p, fd, i)
+						if po == nil {
+							break
+						}
+						if po == o {
+							idx = i
+						}
+					}
+				}
+				if idx < 0 {
+					r.Check(false, "R13.10", inst, ce.Pos(), "base "+types.ExprString(ce.Args[1]), "an integer of YANG text is parsed with base "+types.ExprString(ce.Args[1])+": with base 0 `range \"010..020\"` means 8..16 and 0x10, 0b1, 1_0 are accepted")
+					continue
+				}
+				fn, _ := p.TypesInfo.Defs[fd.Name].(*types.Func)
+				fwds = append(fwds, fwd{fn, idx, ce.Pos()})
+			}
+		}
+	}
+	for _, f := range fwds {
+		sig := f.fn.Type().(*types.Signature)
+		n := 0
+		bad := ""
+		var badPos token.Pos
+		for _, key := range pkgs {
+			p := w.Pkg(key)
+			for _, fd := range funcDecls(p) {
+				if isTestFile(w, fd.Pos()) || fd.Body == nil {
+					continue
+				}
+				for _, ce := range callsIn(p, fd.Body) {
+					c := calleeOf(p, ce)
+					if c == nil || c.Name() != f.fn.Name() || len(ce.Args) <= f.idx {
+						continue
+					}
+					same := c == f.fn
+					if !same && sig.Recv() != nil {
+						// an interface method the receiver's type satisfies
+						if csig, ok := c.Type().(*types.Signature); ok && csig.Recv() != nil {
+							if it, ok := csig.Recv().Type().Underlying().(*types.Interface); ok {
+								same = types.Implements(sig.Recv().Type(), it) || types.Implements(types.NewPointer(sig.Recv().Type()), it)
+							}
+						}
+					}
+					if !same {
+						continue
+					}
+					n++
+					if !isTen(p, ce.Args[f.idx]) {
+						bad = key + "." + funcDeclName(fd) + " passes base " + types.ExprString(ce.Args[f.idx])
+						badPos = ce.Pos()
+					}
+				}
+			}
+		}
+		name := f.fn.Name()
+		if sig.Recv() != nil {
+			name = types.TypeString(sig.Recv().Type(), func(*types.Package) string { return "" }) + "." + name
+		}
+		pos := f.pos
+		if bad != "" {
+			pos = badPos
+		}
+		r.Check(n > 0 && bad == "", "R13.10", name+": base parameter", pos, fmt.Sprintf("%d callers, all pass 10", n), bad+": range and length boundaries are then read with Go's literal prefixes — `range \"010..020\"` compiles as 8..16 and 0x10/0b1/1_0 are accepted")
+	}
 }
 
 func c13Narrowing(w *World, r *Report) {
@@ -402,8 +511,14 @@ func c13Narrowing(w *World, r *Report) {
 	// locals are rendered by provenance: start = base minimum | parsed start; end = base maximum | parsed end
 	const pStart = "<<GetStart(0)>|Parse(<elem(parse.argRb)>.Start,0,64)#0>"
 	const pEnd = "<<GetEnd(Len()-1)>|Parse(<elem(parse.argRb)>.End,0,64)#0>"
+	// the base handed to Parse is R13.10's business, not this rule's
+	stripBase := func(s string) string { return c13ParseBaseRe.ReplaceAllString(s, ".$1)") }
+	for i := range gotC {
+		gotC[i] = stripBase(gotC[i])
+	}
 	need := []string{"LessThan(" + pStart + ",<GetStart(0)>)", "GreaterThan(" + pEnd + ",<GetEnd(Len()-1)>)", "LessThan(" + pStart + ",<<GetStart(<0>)>>)"}
 	for _, n := range need {
+		n = stripBase(n)
 		found := false
 		for _, g := range gotC {
 			if g == n {
